@@ -1,112 +1,66 @@
 (* C18 - the command-line tool reports exactly what the library decides.
-   Only statements closed by [exact]; the model is Cli/Cli.v (decision logic of src/bin/cli.rs),
-   the proofs are in Cli/CliProofs.v.  [lib : call -> bool] is the library (universally
-   quantified: the theorems hold for whatever the validators decide); [dv] selects the code as
-   it stands ([as_in_repo]) or after design.d/C18-fix-features.patch ([repaired]). *)
+   Only statements closed by [exact]; the model is Cli/Cli.v (decision logic of src/bin/cli.rs
+   as of commit 8c0094b, which repaired the two call sites that dropped --features), the proofs
+   are in Cli/CliProofs.v.  [lib : call -> bool] is the library, universally quantified: the
+   theorems hold for whatever the validators decide. *)
 From Coq Require Import List NArith Bool.
 From Cddl Require Import Cli.Cli Cli.CliProofs.
 Import ListNotations.
 Open Scope N_scope.
 
-(* FULL STATEMENT (report_iff_lib).  For the code as it stands it reads
-
-     forall lib a pre x post,
-       v_schema a = SOk -> todo a = pre ++ x :: post -> reaches as_in_repo lib a pre = true ->
-       usable x = true ->
-       (In (x, OSucc) (r_reports (validate as_in_repo lib a)) <-> expected lib a x = true)
-
-   ("a document that is processed is reported successful exactly when the library call of its
-   route, with the same --features, succeeds") and is FALSE: see C18_report_iff_lib_refuted_cbor
-   and C18_report_iff_lib_refuted_stdin_json.  It is a theorem of the repaired code: *)
-Theorem C18_report_iff_lib_repaired : forall lib a pre x post,
-  v_schema a = SOk -> todo a = pre ++ x :: post -> reaches repaired lib a pre = true -> usable x = true ->
-  (In (x, OSucc) (r_reports (validate repaired lib a)) <-> expected lib a x = true).
-Proof. exact report_iff_lib_repaired. Qed.
-
-(* and of any version of the code on every document outside the two findings' classifiers
-   (routes --json, --csv, stdin-CBOR always; --cbor and stdin-JSON when no --features is given or
-   the verdict does not depend on them) *)
-Theorem C18_report_iff_lib_partial : forall dv lib a pre x post,
-  v_schema a = SOk -> todo a = pre ++ x :: post -> reaches dv lib a pre = true -> usable x = true ->
-  respects_features dv lib a x = true ->
-  (In (x, OSucc) (r_reports (validate dv lib a)) <-> expected lib a x = true).
-Proof. exact report_iff_lib_partial. Qed.
+(* a document that is processed (no earlier `return Err`) and readable is reported successful
+   exactly when the library call of its route, with the same --features (and header flag),
+   succeeds *)
+Theorem C18_report_iff_lib : forall lib a pre x post,
+  v_schema a = SOk -> todo a = pre ++ x :: post -> reaches lib a pre = true -> usable x = true ->
+  (In (x, OSucc) (r_reports (validate lib a)) <-> expected lib a x = true).
+Proof. exact report_iff_lib. Qed.
 
 (* a success report is never wrong, whether or not processing was cut short *)
-Theorem C18_report_sound : forall dv lib a x,
-  In (x, OSucc) (r_reports (validate dv lib a)) -> respects_features dv lib a x = true ->
+Theorem C18_report_sound : forall lib a x,
+  In (x, OSucc) (r_reports (validate lib a)) ->
   In x (todo a) /\ usable x = true /\ expected lib a x = true.
 Proof. exact report_sound. Qed.
 
-Theorem C18_report_iff_lib_refuted_cbor : exists lib a x,
-  v_schema a = SOk /\ todo a = [] ++ x :: [] /\ reaches as_in_repo lib a [] = true /\ usable x = true /\
-  it_route x = RCbor /\
-  In (x, OSucc) (r_reports (validate as_in_repo lib a)) /\ expected lib a x = false.
-Proof. exact report_iff_lib_refuted_cbor. Qed.
-
-Theorem C18_report_iff_lib_refuted_stdin_json : exists lib a x,
-  v_schema a = SOk /\ todo a = [] ++ x :: [] /\ reaches as_in_repo lib a [] = true /\ usable x = true /\
-  it_route x = RStdin /\ s_utf8 (it_src x) = true /\
-  In (x, OSucc) (r_reports (validate as_in_repo lib a)) /\ expected lib a x = false.
-Proof. exact report_iff_lib_refuted_stdin_json. Qed.
-
 (* no document is skipped, reordered or reported twice: the reports are those of a prefix of the
    work list json* ++ cbor* ++ csv* ++ stdin, each with its own outcome *)
-Theorem C18_reports_prefix : forall dv lib a, exists k,
-  r_reports (validate dv lib a) = map (fun x => (x, step dv lib a x)) (firstn k (todo a)).
+Theorem C18_reports_prefix : forall lib a, exists k,
+  r_reports (validate lib a) = map (fun x => (x, step lib a x)) (firstn k (todo a)).
 Proof. exact reports_prefix. Qed.
 
 (* without --ci a failing or missing document does not mask later ones *)
-Theorem C18_noci_all_reported : forall dv lib a, v_ci a = false -> v_schema a = SOk ->
-  (forall x, In x (todo a) -> step dv lib a x <> OIoErr) ->
-  r_reports (validate dv lib a) = map (fun x => (x, step dv lib a x)) (todo a).
+Theorem C18_noci_all_reported : forall lib a, v_ci a = false -> v_schema a = SOk ->
+  (forall x, In x (todo a) -> step lib a x <> OIoErr) ->
+  r_reports (validate lib a) = map (fun x => (x, step lib a x)) (todo a).
 Proof. exact noci_all_reported. Qed.
 
 (* with --ci processing stops at (and reports) the first document that is not successful *)
-Theorem C18_ci_stops_at_first_failure : forall dv lib a pre x post, v_ci a = true -> v_schema a = SOk ->
-  todo a = pre ++ x :: post -> (forall y, In y pre -> step dv lib a y = OSucc) -> step dv lib a x <> OSucc ->
-  r_reports (validate dv lib a) = map (fun y => (y, step dv lib a y)) pre ++ [(x, step dv lib a x)]
-  /\ r_fail (validate dv lib a) = true.
+Theorem C18_ci_stops_at_first_failure : forall lib a pre x post, v_ci a = true -> v_schema a = SOk ->
+  todo a = pre ++ x :: post -> (forall y, In y pre -> step lib a y = OSucc) -> step lib a x <> OSucc ->
+  r_reports (validate lib a) = map (fun y => (y, step lib a y)) pre ++ [(x, step lib a x)]
+  /\ r_fail (validate lib a) = true.
 Proof. exact ci_stops_at_first_failure. Qed.
 
-(* FULL STATEMENT (ci_exit_iff): with --ci the exit status is non-zero exactly when the schema does
-   not compile, or some document is missing / unreadable, or the library (same features) rejects it.
-   For the code as it stands:
-
-     forall lib a, v_ci a = true ->
-       (r_fail (validate as_in_repo lib a) = true <->
-        v_schema a <> SOk \/ exists x, In x (todo a) /\ (usable x = false \/ expected lib a x = false))
-
-   is FALSE (C18_ci_exit_iff_refuted); it holds for the repaired code, *)
-Theorem C18_ci_exit_iff_repaired : forall lib a, v_ci a = true ->
-  (r_fail (validate repaired lib a) = true <->
+(* with --ci the exit status is non-zero exactly when the schema does not compile (or is missing /
+   unreadable / has no root type), or some document is missing / unreadable, or the library (same
+   features) rejects it *)
+Theorem C18_ci_exit_iff : forall lib a, v_ci a = true ->
+  (r_fail (validate lib a) = true <->
    v_schema a <> SOk \/ exists x, In x (todo a) /\ (usable x = false \/ expected lib a x = false)).
-Proof. exact ci_exit_iff_repaired. Qed.
+Proof. exact ci_exit_iff. Qed.
 
-(* for any version on invocations outside the classifiers, *)
-Theorem C18_ci_exit_iff_partial : forall dv lib a, v_ci a = true ->
-  (forall x, In x (todo a) -> respects_features dv lib a x = true) ->
-  (r_fail (validate dv lib a) = true <->
-   v_schema a <> SOk \/ exists x, In x (todo a) /\ (usable x = false \/ expected lib a x = false)).
-Proof. exact ci_exit_iff_partial. Qed.
-
-(* and unconditionally with respect to the calls the tool actually makes *)
-Theorem C18_ci_exit_iff_made : forall dv lib a, v_ci a = true ->
-  (r_fail (validate dv lib a) = true <->
-   v_schema a <> SOk \/ exists x, In x (todo a) /\ step dv lib a x <> OSucc).
+(* the same in terms of the per-document outcomes *)
+Theorem C18_ci_exit_iff_made : forall lib a, v_ci a = true ->
+  (r_fail (validate lib a) = true <->
+   v_schema a <> SOk \/ exists x, In x (todo a) /\ step lib a x <> OSucc).
 Proof. exact ci_exit_iff_made. Qed.
-
-Theorem C18_ci_exit_iff_refuted : exists lib a x,
-  v_ci a = true /\ v_schema a = SOk /\ In x (todo a) /\ usable x = true /\ expected lib a x = false /\
-  r_fail (validate as_in_repo lib a) = false.
-Proof. exact ci_exit_iff_refuted. Qed.
 
 (* without --ci the exit status is non-zero only for an unreadable / non-compiling schema or an
    unreadable document (the `?` operators); failing and missing documents leave it at zero *)
-Theorem C18_noci_exit_iff : forall dv lib a, v_ci a = false ->
-  (r_fail (validate dv lib a) = true <->
+Theorem C18_noci_exit_iff : forall lib a, v_ci a = false ->
+  (r_fail (validate lib a) = true <->
    In (v_schema a) [SUnreadable; SNoParse; SNoRoot] \/
-   (v_schema a = SOk /\ exists x, In x (todo a) /\ step dv lib a x = OIoErr)).
+   (v_schema a = SOk /\ exists x, In x (todo a) /\ step lib a x = OIoErr)).
 Proof. exact noci_exit_iff. Qed.
 
 (* compile-cddl: "<file> is conformant" with exit status zero exactly when the parser accepts *)
@@ -122,7 +76,7 @@ Proof. exact compile_exit_iff_parse. Qed.
 (* ---------- non-vacuity ---------- *)
 
 (* cddl validate -d s --features fx --csv-header -j ok -j missing -j bad -c dropped --csv c --stdin(CBOR):
-   every route is exercised, all premises of C18_report_iff_lib_partial hold for the csv document *)
+   every route is exercised, all premises of C18_report_iff_lib hold for the csv document *)
 Definition ex_lib (c : call) : bool :=
   match c with
   | CallJson 0 (Some _) => true
@@ -139,25 +93,21 @@ Definition ex_args (ci : bool) : vargs :=
      v_cbor := [ex_src 3 true false]; v_csv := [ex_src 4 true true]; v_stdin := Some (ex_src 5 true false) |}.
 
 Example C18_example_noci :
-  render (validate as_in_repo ex_lib (ex_args false))
-  = [45;32; 106;48;43;32; 106;49;63;32; 106;50;45;32; 99;48;43;32; 115;48;43;32; 105;48;43;32; 88;48]
-    (* "- j0+ j1? j2- c0+ s0+ i0+ X0" *)
-  /\ render (validate repaired ex_lib (ex_args false))
+  render (validate ex_lib (ex_args false))
   = [45;32; 106;48;43;32; 106;49;63;32; 106;50;45;32; 99;48;45;32; 115;48;43;32; 105;48;43;32; 88;48].
-    (* "- j0+ j1? j2- c0- s0+ i0+ X0" *)
-Proof. vm_compute. split; reflexivity. Qed.
+    (* "- j0+ j1? j2- c0- s0+ i0+ X0": the CBOR file is valid only without the features, so it fails *)
+Proof. vm_compute. reflexivity. Qed.
 
 Example C18_example_ci :
-  render (validate as_in_repo ex_lib (ex_args true)) = [45;32; 106;48;43;32; 106;49;63;32; 88;49].
+  render (validate ex_lib (ex_args true)) = [45;32; 106;48;43;32; 106;49;63;32; 88;49].
     (* "- j0+ j1? X1" *)
 Proof. vm_compute. reflexivity. Qed.
 
-Example C18_example_partial_premises :
+Example C18_example_premises :
   let a := ex_args false in
   let x := (RCsv, 0, ex_src 4 true true) in
   v_schema a = SOk /\ todo a = firstn 4 (todo a) ++ x :: skipn 5 (todo a)
-  /\ reaches as_in_repo ex_lib a (firstn 4 (todo a)) = true /\ usable x = true
-  /\ respects_features as_in_repo ex_lib a x = true /\ expected ex_lib a x = true.
+  /\ reaches ex_lib a (firstn 4 (todo a)) = true /\ usable x = true /\ expected ex_lib a x = true.
 Proof. vm_compute. repeat split; reflexivity. Qed.
 
 Example C18_example_compile :
